@@ -341,6 +341,10 @@ type model struct {
 	user  layer
 	def   layer
 	file  layer // nil: never saved
+	// broken: persistence fault injected (the directory of config.json is
+	// missing, so SaveConfig and loadConfig fail); the stored file survives
+	// and is back after the repair.
+	broken bool
 }
 
 func newModel(specs []spec) *model {
@@ -396,5 +400,9 @@ func (m *model) effective(key string) (*mv, string) {
 }
 
 func (m *model) String() string {
-	return "user=" + m.user.String() + " default=" + m.def.String() + " file=" + m.file.String()
+	s := "user=" + m.user.String() + " default=" + m.def.String() + " file=" + m.file.String()
+	if m.broken {
+		s += " persistence=broken"
+	}
+	return s
 }
